@@ -262,13 +262,14 @@ OpsFor(name) ==
            IF st = "M" THEN {MkOp("refspace", <<d>>, {}, {}) : d \in {e \in Dirs : \A c \in cells : CanRefine(c, {e})}} ELSE {}
       [] name = "refby" -> IF st # "M" THEN {MkOp("refby", <<>>, S, {}) : S \in Subs(KeysRef)} ELSE {}
       [] name = "hierand" ->
-           IF st # "M" THEN {MkOp("hierand", <<>>, x[1], x[2]) : x \in {y \in Subs1(KeysRef) \X Subs1(KeysRef) : y[1] # y[2]}} ELSE {}
+           IF st # "M" THEN {MkOp("hierand", <<>>, x[1], x[2]) : x \in {y \in Subs1(KeysRef) \X PatSubs(KeysRef) : y[1] # y[2]}} ELSE {}
       [] name = "take" -> {MkOp("take", <<>>, S, {}) : S \in Subs(KeysAll) \ {KeysAll}}
       [] name = "select" -> IF st # "M" THEN {MkOp("select", <<>>, S, {}) : S \in Subs(KeysAll) \ {KeysAll}} ELSE {}
       [] name = "remove" -> IF st # "M" THEN {MkOp("remove", <<>>, S, {}) : S \in Subs(KeysAll) \ {KeysAll}} ELSE {}
       [] name = "union" ->
            IF st # "M"
-           THEN {MkOp("union", <<m>>, x[1], x[2]) : m \in {0, 1}, x \in {y \in Subs1(KeysAll) \X Subs1(KeysAll) : y[1] # y[2]}}
+           THEN {MkOp("union", <<m>>, x[1], x[2]) : m \in {0, 1},
+                    x \in {y \in Subs1(KeysAll) \X PatSubs(KeysAll) : y[1] # y[2]} \cup {<<S, KeysAll \ S>> : S \in Subs1(KeysAll) \ {KeysAll}}}
            ELSE {}
       [] name = "slice" ->
            IF st \in {"S", "H", "M"}
